@@ -73,8 +73,8 @@ def weight_value(t):
     return WEIGHT_VALUES[t]
 
 
-MAX_STATES = 260      # bound on the number of FSG states the expansion of any rule creates
-MAX_CLOSED_ARCS = 5000  # the closed FSG is compared when it has at most this many arcs (null closure is quadratic)
+MAX_STATES = 220      # bound on the number of FSG states the expansion of any rule creates
+MAX_CLOSED_ARCS = 3000  # the closed FSG is compared when it has at most this many arcs (null closure is quadratic)
 
 
 def expansion_size(g):
@@ -127,7 +127,7 @@ class Gen:
 
     def exp(self, ctx, depth, last):
         r = self.rng
-        if depth <= 0 or r.chance(0.45):
+        if depth <= 0 or r.chance(ctx.get("pstop", 0.45)):
             return self.atom(ctx, last)
         k = r.weighted([("G", 35), ("O", 25), ("S", 20), ("P", 20)])
         if k in ("G", "O"):
@@ -145,12 +145,12 @@ class Gen:
         return (w, tags, self.exp(ctx, depth, last))
 
     def seq(self, ctx, depth, last, weighted):
-        n = self.rng.weighted([(1, 40), (2, 35), (3, 20), (4, 5)])
+        n = self.rng.weighted([(1, 40), (2, 35), (3, 20), (4, 5)] if not ctx.get("narrow") else [(1, 60), (2, 35), (3, 5)])
         return [self.item(ctx, depth, last and i == n - 1, weighted and i == 0) for i in range(n)]
 
     def alts(self, ctx, depth, last):
         r = self.rng
-        n = r.weighted([(1, 45), (2, 35), (3, 15), (4, 5)])
+        n = r.weighted([(1, 45), (2, 35), (3, 15), (4, 5)] if not ctx.get("narrow") else [(1, 65), (2, 30), (3, 5)])
         mode = r.weighted([("none", 70), ("all", 22), ("some", 8)]) if n > 1 or r.chance(0.1) else "none"
         out = []
         for _ in range(n):
@@ -178,7 +178,7 @@ class Gen:
         words = list(WORDS)
         r.shuffle(words)
         words = words[:r.range(2, 4)]
-        maxdepth = r.weighted([(0, 10), (1, 20), (2, 25), (3, 20), (4, 12), (5, 8), (6, 5)])
+        maxdepth = r.weighted([(0, 8), (1, 16), (2, 22), (3, 20), (4, 14), (5, 10), (6, 10)])
         gname = r.weighted([("g", 70), ("turtle", 15), ("com.example.cmds", 15)])
         rules = []
         if kind == "hidden" and nrules >= 2:
@@ -204,7 +204,8 @@ class Gen:
         else:
             for i, nm in enumerate(names):
                 later = names[i + 1:]
-                ctx = dict(words=words, pnull=r.choice([0, 4, 10]), pvoid=r.choice([0, 0, 3, 8]), pref=25)
+                ctx = dict(words=words, pnull=r.choice([0, 4, 10]), pvoid=r.choice([0, 0, 3, 8]), pref=25,
+                           pstop=0.45 if maxdepth < 4 else 0.15, narrow=maxdepth >= 4)
                 if kind == "acyclic":
                     ctx.update(refs=later, refs_tail=later)
                 elif kind == "tail":
@@ -228,8 +229,16 @@ class Gen:
 # ----------------------------------------------------------------------------
 # printing to JSGF text
 
+S_OPT, S_MUST, S_END, S_RULE = "\ue000", "\ue002", "\ue001", "\ue003"   # private-use marks around separators
+
+
+def strip_marks(t):
+    return t.replace(S_OPT, "").replace(S_MUST, "").replace(S_END, "").replace(S_RULE, "")
+
+
 class Printer:
-    """plain=True: canonical minimal text; otherwise random layout, comments, qualified references"""
+    """plain=True: canonical minimal text; otherwise random layout, comments, qualified references.
+    `marked(g)` keeps marks around every separator and before every rule (used for shrinking the layout)."""
 
     def __init__(self, rng=None, plain=True, stats=None):
         self.rng, self.plain, self.stats = rng, plain or rng is None, stats
@@ -239,6 +248,9 @@ class Printer:
             self.stats["text_features"][what] = self.stats["text_features"].get(what, 0) + 1
 
     def sp(self, must=False):
+        return (S_MUST if must else S_OPT) + self.sp1(must) + S_END
+
+    def sp1(self, must):
         if self.plain:
             return " " if must else ""
         r = self.rng
@@ -248,6 +260,7 @@ class Printer:
         if k == "many":
             return r.choice(["  ", " \t ", "   "])
         if k == "nl":
+            self.note("newline")
             return r.choice(["\n", "\r\n", "\n    "])
         if k == "cc":
             self.note("c-comment")
@@ -290,27 +303,67 @@ class Printer:
         out = ""
         for i, it in enumerate(s):
             if i:
-                out += self.sp(must=True) or " "
+                out += self.sp(must=True)
             out += self.item(it, gname)
         return out
 
     def alts(self, a, gname):
         return (self.sp() + "|" + self.sp()).join(self.seq(s, gname) for s in a)
 
-    def grammar(self, g):
+    def marked(self, g):
         gname = g["name"]
         if self.plain:
             head = "#JSGF V1.0;\ngrammar " + gname + ";\n"
         else:
             r = self.rng
             head = r.choice(["#JSGF V1.0;", "#JSGF V1.0 UTF-8;", "#JSGF V1.0 UTF-8 en;", "\ufeff#JSGF V1.0;", "#JSGF;"])
-            head += self.sp(must=True) or "\n"
-            head += "grammar" + (self.sp(must=True) or " ") + gname + self.sp() + ";" + self.sp(must=True)
+            head += self.sp(must=True)
+            head += "grammar" + self.sp(must=True) + gname + self.sp() + ";" + self.sp(must=True)
         out = head
         for nm, pub, body in g["rules"]:
-            out += ("public" + (self.sp(must=True) or " ") if pub else "") + f"<{nm}>" + self.sp() + "=" + self.sp() + \
-                self.alts(body, gname) + self.sp() + ";" + (self.sp(must=True) or "\n")
+            out += S_RULE + ("public" + self.sp(must=True) if pub else "") + f"<{nm}>" + self.sp() + "=" + self.sp() + \
+                self.alts(body, gname) + self.sp() + ";" + self.sp(must=True)
         return out
+
+    def grammar(self, g):
+        return strip_marks(self.marked(g))
+
+
+def layout_pieces(marked):
+    """-> list of [kind, text], kind in txt / opt / must / rule"""
+    out, i, cur = [], 0, ""
+    while i < len(marked):
+        ch = marked[i]
+        if ch in (S_OPT, S_MUST):
+            if cur:
+                out.append(["txt", cur])
+                cur = ""
+            j = marked.index(S_END, i)
+            out.append(["opt" if ch == S_OPT else "must", marked[i + 1:j]])
+            i = j + 1
+        elif ch == S_RULE:
+            if cur:
+                out.append(["txt", cur])
+                cur = ""
+            out.append(["rule", ""])
+            i += 1
+        else:
+            cur += ch
+            i += 1
+    if cur:
+        out.append(["txt", cur])
+    return out
+
+
+def render_pieces(pieces, keep):
+    """separators whose index is not in `keep` are replaced by the plainest legal one"""
+    out = ""
+    for i, (k, t) in enumerate(pieces):
+        if k == "txt":
+            out += t
+        elif k in ("opt", "must"):
+            out += t if i in keep else ("" if k == "opt" else " ")
+    return out
 
 
 # ----------------------------------------------------------------------------
@@ -588,6 +641,8 @@ def run_batch(binp, cases):
         for nm, _, _ in g["rules"]:
             dlines.append(f"rep u{ids.rule[nm]} {FUEL}")
             plan.append((i, "rep", nm))
+            dlines.append(f"expand u{ids.rule[nm]}")
+            plan.append((i, "expand", nm))
         if hc:
             for top, kind, fsg in hc["fsg"]:
                 if isinstance(fsg, dict):
@@ -607,7 +662,8 @@ def run_batch(binp, cases):
                     dlines.append(f"cmp u{ids.rule[nm]} {FUEL} {MAXPAIRS} {fsg['n']} {fsg['start']} {fsg['final']} " +
                                   " ".join(fsg_arcs_tokens(fsg, ids, extra)))
                     plan.append((i, "cmp", (nm, "read")))
-        results[i] = {"g": g, "text": text, "ids": ids, "h": hc, "m": {"rep": {}, "cmp": {}}, "extra_words": extra}
+        results[i] = {"g": g, "text": text, "ids": ids, "h": hc, "m": {"rep": {}, "cmp": {}, "expand": {}},
+                      "extra_words": extra}
     rc, dout, derr = run_driver_retry("\n".join(dlines) + "\n")
     douts = dout.rstrip("\n").split("\n") if dout.strip() else []
     if rc != 0 or len(douts) != len(plan):
@@ -622,6 +678,8 @@ def run_batch(binp, cases):
             m["norm_line"] = ans
         elif what == "rep":
             m["rep"][arg] = ans
+        elif what == "expand":
+            m["expand"][arg] = ans
         else:
             m["cmp"][arg] = ans
     return results
@@ -664,6 +722,65 @@ def choice_point_sums(fsg):
     return res
 
 
+def mirror_diff(xs, fsg, ids, extra):
+    """compare the driver's `xfsg` answer with a dumped raw FSG: states, and links as a map
+    (from, to, word) -> probability (maximum over duplicates; null self-loops dropped, as fsg_model does)"""
+    w = xs.split(" ")
+    if w[0] != "xfsg":
+        return "no answer from the mirror: " + xs[:40]
+    if int(w[1]) != fsg["n"]:
+        return f"{fsg['n']} states in the implementation, {w[1]} in the mirror"
+    if fsg["start"] != 0 or fsg["final"] != 1:
+        return f"start/final state {fsg['start']}/{fsg['final']} instead of 0/1"
+    model = {}
+    for a in w[3:3 + int(w[2])]:
+        f, t, lab, q = a.split(":")
+        num, den = q.split("/")
+        p = int(num) / int(den)
+        key = (int(f), int(t), None if lab == "-" else int(lab))
+        if key[2] is None and key[0] == key[1]:
+            continue
+        model[key] = max(model.get(key, 0.0), p)
+    impl = {}
+    for f, t, lp, wd in fsg["arcs"]:
+        wid = None if wd is None else ids.word.get(wd, extra.get(wd, -1))
+        impl[(f, t, wid)] = math.exp(lp * LOGBASE) if lp > -10 ** 8 else 0.0
+    if set(model) != set(impl):
+        only_m = sorted(set(model) - set(impl), key=str)[:3]
+        only_i = sorted(set(impl) - set(model), key=str)[:3]
+        return f"links only in the mirror {only_m}, only in the implementation {only_i}"
+    for k in model:
+        if abs(model[k] - impl[k]) > 3e-4 * max(1.0, model[k]):
+            return f"probability of link {k}: {impl[k]:.6f} vs {model[k]:.6f}"
+    return None
+
+
+def mass_may_vanish(g):
+    """an alternative that starts with <VOID> gets no arc (its share of the probability mass is lost with it), and an
+    alternative that is a lone rule reference may become a null self-loop / duplicate null arc that fsg_model drops:
+    for such grammars the outgoing probabilities of a choice point are only bounded by one"""
+    found = []
+
+    def alts(a):
+        for s in a:
+            first = s[0][2]
+            if first[0] == "v" or (len(s) == 1 and first[0] == "r"):
+                found.append(1)
+            for it in s:
+                exp(it[2])
+
+    def exp(e):
+        if e[0] in ("G", "O"):
+            alts(e[1])
+        elif e[0] in ("S", "P"):
+            if e[1][0] == "v":
+                found.append(1)
+            exp(e[1])
+    for _, _, body in g["rules"]:
+        alts(body)
+    return bool(found)
+
+
 def judge_case(res):
     """-> list of problems: (kind, impl_violates_property, detail)"""
     g, hc, m, ids = res["g"], res["h"], res["m"], res["ids"]
@@ -693,10 +810,11 @@ def judge_case(res):
     if hc["missing"]:
         probs.append(("a defined rule is missing from jsgf->rules", None, hc["missing"]))
     # (b) accept/refuse and (c) language
-    rep = {}
+    rep, lasthop = {}, {}
     for nm in names:
         w = m["rep"].get(nm, "").split(" ")
         rep[nm] = (len(w) >= 5 and w[1] == "1")
+        lasthop[nm] = (len(w) >= 7 and w[6] == "1")
         if len(w) >= 5 and w[1] == "1" and w[4] == "none":
             probs.append((f"model: representable rule <{nm}> but the exploration found no closed finite set of forms "
                           f"within {FUEL}", False, ""))
@@ -710,9 +828,14 @@ def judge_case(res):
                               f"compiler refuses it", True, ""))
             continue
         if not rep.get(nm):
-            probs.append((f"rule <{nm}> ({kind}) cannot be represented (undefined rule, or recursion that is not right "
-                          f"recursion along the whole reference chain) but the compiler builds an FSG instead of refusing",
-                          True, {"fsg": fsg_brief(fsg)}))
+            if lasthop.get(nm):
+                probs.append((f"rule <{nm}> ({kind}): non-tail recursion hidden behind a tail reference chain (every reference "
+                              f"that closes a cycle is last in its own right-hand side, but a reference on the chain back to its "
+                              f"target is not) — the compiler builds an FSG instead of refusing",
+                              True, {"fsg": fsg_brief(fsg)}))
+            else:
+                probs.append((f"rule <{nm}> ({kind}) cannot be represented (undefined rule, or recursion that is not right "
+                              f"recursion) but the compiler builds an FSG instead of refusing", True, {"fsg": fsg_brief(fsg)}))
             continue
         ans = m["cmp"].get((nm, kind), "")
         if ans == "equal" or ans == "skipped-size":
@@ -726,6 +849,21 @@ def judge_case(res):
                           True, {"sentence": sent, "fsg": fsg_brief(fsg)}))
         else:
             probs.append((f"language comparison for <{nm}> ({kind}) did not complete: {ans[:80]}", False, ""))
+    # (c') the mirror of expand_rule: same states and links as the raw FSG (after fsg_model's merging of duplicate
+    # links and dropping of null self-loops)
+    for top, kind, fsg in hc["fsg"]:
+        if kind != "raw" or fsg == "crash":
+            continue
+        nm = top[1 + len(g["name"]) + 1:-1]
+        xs = m["expand"].get(nm, "")
+        if fsg is None or xs == "xnone":
+            if (fsg is None) != (xs == "xnone"):
+                probs.append((f"mirror of expand_rule and the compiler disagree on refusing <{nm}>", None, xs[:40]))
+            continue
+        why = mirror_diff(xs, fsg, ids, res["extra_words"])
+        res["mirror_compared"] = res.get("mirror_compared", 0) + 1
+        if why:
+            probs.append((f"raw FSG of <{nm}> differs from the mirror of expand_rule: {why}", None, ""))
     # (e) rule stack
     for top, depth in hc["stack"]:
         if depth != 0:
@@ -741,12 +879,14 @@ def judge_case(res):
             ok, why = False, repr(e)
         if not ok:
             probs.append(("first-atom weights after the build differ from normaliseRule over Q", None, why))
+    exact = not mass_may_vanish(g)
+    res["sum_check"] = "exact" if exact else "upper bound only"
     for top, kind, fsg in hc["fsg"]:
         if kind == "raw" and isinstance(fsg, dict) and rep.get(top[1 + len(g["name"]) + 1:-1]):
             for st, total, lps in choice_point_sums(fsg):
                 zero = all(lp < -10 ** 8 for lp in lps)
-                if not zero and abs(total - 1.0) > 2e-3 * len(lps):
-                    # merged duplicate arcs / dropped self-loops are legitimate reasons only for tail self references
+                tol = 2e-3 * len(lps)
+                if total > 1.0 + tol or (exact and not zero and total < 1.0 - tol):
                     probs.append((f"choice point state {st} of the raw FSG of {top}: probabilities sum to {total:.5f}",
                                   None, {"logprobs": lps}))
     # (f) whole pipeline
@@ -860,19 +1000,60 @@ def shrink_exp(e):
 
 
 def problem_class(p):
-    """stable class of a problem, used to keep the same failure while shrinking"""
-    kind = p[0]
-    kind = re.sub(r"<[^>]*>", "<R>", kind)
-    kind = re.sub(r"sentence \[.*?\] is", "sentence S is", kind)
-    kind = re.sub(r"\(raw FSG\)|\(closed FSG\)|\(raw\)|\(closed\)", "(K)", kind)
-    kind = re.sub(r"state \d+ .*", "state", kind)
-    kind = re.sub(r"\(depth \d+\)", "", kind)
-    kind = re.sub(r"accepted|rejected", "A/R", kind)
-    kind = re.sub(r"not in|\bin\b", "in?", kind)
-    return kind
+    """stable identifier of the kind of failure (used to keep the same failure while shrinking, to report one
+    witness per kind, and as the key of a known finding)"""
+    t = p[0]
+    table = [("crashed", "crash-in-library"),
+             ("front end rejects", "frontend-rejects-valid-text"),
+             ("no public rule, but jsgf_read_string", "read-string-no-public-rule"),
+             ("jsgf_read_string compiles the non-public", "read-string-non-public-rule"),
+             ("jsgf_read_string compiles", "read-string-not-refused"),
+             ("jsgf_read_string refuses", "read-string-refuses-representable"),
+             ("jsgf_read_string, rule", "read-string-language-differs"),
+             ("hidden behind a tail reference chain", "hidden-non-tail-recursion-not-refused"),
+             ("builds an FSG instead of refusing", "not-refused"),
+             ("but the compiler refuses it", "refuses-representable"),
+             ("the language of the JSGF rule", "language-differs"),
+             ("rule table built by the real", "rule-table-differs"),
+             ("mirror of expand_rule", "expansion-differs-from-mirror"),
+             ("missing from jsgf->rules", "rule-missing"),
+             ("rule stack not empty", "rule-stack-not-empty"),
+             ("first-atom weights", "weights-differ"),
+             ("choice point state", "probability-sum"),
+             ("did not complete", "comparison-incomplete"),
+             ("model:", "model-self-check")]
+    for key, code in table:
+        if key in t:
+            return code
+    return "other"
 
 
-def shrink(binp, g, cls, budget=160):
+def finding_key(g, text, cls):
+    """identifier of the witness class for known_findings.json (None when the failure is not of a nameable class)"""
+    if cls == "hidden-non-tail-recursion-not-refused":
+        return "non-tail recursion hidden behind a tail reference chain"
+    if cls == "frontend-rejects-valid-text" and re.search(r"\n;", text):
+        # the scanner's catch-all pattern `.|\n;` swallows a semicolon that directly follows a newline
+        if still_fails(g, re.sub(r"\n;", "\n ;", text), cls) is None:
+            return "semicolon directly after a newline"
+    return None
+
+
+def main_problem(probs):
+    return sorted(probs, key=lambda p: (p[1] is not True, p[1] is False, problem_class(p)))[0]
+
+
+def still_fails(g, text, cls):
+    try:
+        res = run_batch(None, [(g, text)])[0]
+        probs = judge_case(res)
+    except Exception:
+        return None
+    return (res, probs) if any(problem_class(p) == cls for p in probs) else None
+
+
+def shrink(g, cls, budget=200):
+    """greedy structural shrinking of the grammar under the plain rendering"""
     plain = Printer(plain=True)
     cur = g
     improved = True
@@ -882,56 +1063,96 @@ def shrink(binp, g, cls, budget=160):
             if budget <= 0:
                 break
             budget -= 1
-            try:
-                res = run_batch(binp, [(cand, plain.grammar(cand))])[0]
-                probs = judge_case(res)
-            except Exception:
-                continue
-            if any(problem_class(p) == cls for p in probs):
+            if still_fails(cand, plain.grammar(cand), cls):
                 cur, improved = cand, True
                 break
     return cur
 
 
+def shrink_layout(g, marked, cls):
+    """the failure needs the layout: find a minimal set of separators to keep, then drop rules"""
+    pieces = layout_pieces(marked)
+    seps = [i for i, (k, t) in enumerate(pieces) if k in ("opt", "must") and t not in ("", " ")]
+    keep = vlib.ddmin(seps, lambda sub: still_fails(g, render_pieces(pieces, set(sub)), cls) is not None, max_tests=120)
+    if not still_fails(g, render_pieces(pieces, set(keep)), cls):
+        keep = seps
+    keep = set(keep)
+    # drop whole rules (text segment and AST rule together)
+    starts = [i for i, (k, _) in enumerate(pieces) if k == "rule"]
+    rules = list(g["rules"])
+    segs = [(starts[j], starts[j + 1] if j + 1 < len(starts) else len(pieces)) for j in range(len(starts))]
+    alive = list(range(len(rules)))
+    for j in range(len(rules)):
+        if len(alive) <= 1:
+            break
+        trial = [x for x in alive if x != j]
+        g2 = {"name": g["name"], "rules": [rules[x] for x in trial]}
+        text = render_pieces(pieces[:starts[0]], keep) if starts else ""
+        for x in trial:
+            a, b = segs[x]
+            text += "".join(t if (k == "txt" or (a + n) in keep) else ("" if k == "opt" else " " if k == "must" else "")
+                            for n, (k, t) in enumerate(pieces[a:b]))
+        if still_fails(g2, text, cls):
+            alive = trial
+    g2 = {"name": g["name"], "rules": [rules[x] for x in alive]}
+    text = render_pieces(pieces[:starts[0]], keep) if starts else ""
+    for x in alive:
+        a, b = segs[x]
+        text += "".join(t if (k == "txt" or (a + n) in keep) else ("" if k == "opt" else " " if k == "must" else "")
+                        for n, (k, t) in enumerate(pieces[a:b]))
+    return g2, text
+
+
 # ----------------------------------------------------------------------------
 # the check
 
-def report(c, binp, res, probs, label, do_shrink=True):
-    """record obligations / violations for one failing case"""
+def report(c, res, probs, label, marked=None, do_shrink=True):
+    """record the obligation failure and the violation for one failing case (shrunk when possible)"""
     g, text = res["g"], res["text"]
-    main = sorted(probs, key=lambda p: (p[1] is not True, p[0]))[0]
-    cls = problem_class(main)
-    small, stext, sprobs = g, text, probs
+    cls = problem_class(main_problem(probs))
     if do_shrink:
-        # first try the plain rendering of the same grammar (is the text layout needed?)
         try:
             plain_text = Printer(plain=True).grammar(g)
-            r2 = run_batch(binp, [(g, plain_text)])[0]
-            p2 = judge_case(r2)
-            if any(problem_class(p) == cls for p in p2):
-                small = shrink(binp, g, cls)
-                stext = Printer(plain=True).grammar(small)
-                r3 = run_batch(binp, [(small, stext)])[0]
-                sprobs = judge_case(r3)
-                res = r3
+            if still_fails(g, plain_text, cls):
+                small = shrink(g, cls)
+                got = still_fails(small, Printer(plain=True).grammar(small), cls)
+                if got:
+                    res, probs = got
+            elif marked is not None:
+                g2, t2 = shrink_layout(g, marked, cls)
+                got = still_fails(g2, t2, cls)
+                if got:
+                    res, probs = got
         except DriverFailure:
             pass
-    impl = any(p[1] is True for p in sprobs)
-    # problems with impl = None (table / weights / stack differences) are correspondence failures: the
-    # implementation deviates from the model; they count as a violation of the property only together
-    # with a language / refusal difference.
-    c.oblige(f"correspondence model = implementation ({label})", False,
-             {"problems": [p[0] for p in sprobs][:6], "jsgf": stext})
+    g, text = res["g"], res["text"]
+    main = ([p for p in probs if problem_class(p) == cls] or [main_problem(probs)])[0]
+    impl = main[1] is True or any(p[1] is True for p in probs)
+    key = finding_key(g, text, cls)
+    if key and any(kf.get("property") == c.prop and kf.get("status", "open") == "open" and kf.get("key") == key
+                   for kf in vlib.known_findings()):
+        c.violation({}, impl, finding_key=key)
+        return True
+    # problems with impl = None (table / weights / stack / probability differences) are correspondence failures:
+    # the implementation deviates from the model; only language / refusal / crash / rejection differences are
+    # counted as the implementation breaking the property on this input.
+    c.oblige(f"correspondence model = implementation ({label}; {problem_class(main)})", False,
+             {"problems": [p[0] for p in probs][:6], "jsgf": text})
     hc = res["h"] or {}
-    c.violation({"kind": "JSGF grammar", "jsgf_text": stext, "grammar": small,
-                 "problems": [{"what": p[0], "implementation_violates_property": p[1], "detail": p[2]} for p in sprobs],
+    c.violation({"kind": "JSGF grammar", "failure_class": problem_class(main), "what": main[0],
+                 "jsgf_text": text, "grammar": g,
+                 "problems": [{"class": problem_class(p), "what": p[0], "implementation_violates_property": p[1],
+                               "detail": p[2]} for p in probs],
                  "implementation": {"parse": hc.get("parse"),
                                     "built": [(t, k, "FSG" if isinstance(f, dict) else f) for t, k, f in hc.get("fsg", [])],
                                     "rule_stack_depth_after_build": hc.get("stack"),
                                     "jsgf_read_string": "FSG of " + hc["read"][0] if isinstance(hc.get("read"), tuple) else hc.get("read")},
                  "model": {"representable": res["m"]["rep"], "comparison": {f"{k[0]}/{k[1]}": v for k, v in res["m"]["cmp"].items()}},
                  "implementation_violates_property": impl,
-                 "how_to_rerun": "python3 tools/check.py C05 --replay <this file>"}, impl)
+                 "finding_key": key,
+                 "how_to_rerun": "python3 tools/check.py C05 --replay <this file>"}, impl, tag=problem_class(main),
+                finding_key=key)
+    return False
 
 
 def account(stats, res, probs):
@@ -986,18 +1207,61 @@ def account(stats, res, probs):
     for k, ans in m["cmp"].items():
         key = ans.split(" ")[0]
         st["comparisons"][key] = st["comparisons"].get(key, 0) + 1
+    st["mirror_compared"] = st.get("mirror_compared", 0) + res.get("mirror_compared", 0)
+    sc = res.get("sum_check", "not run")
+    st["probability_sum_check"][sc] = st["probability_sum_check"].get(sc, 0) + 1
+    rc = recursion_class(g)
+    st["recursion"][rc] = st["recursion"].get(rc, 0) + 1
 
 
 def new_stats():
     return {"kind": {}, "public": {}, "rules_hist": {}, "depth_hist": {}, "features": {}, "model_decision": {},
-            "impl_decision": {}, "read_string": {}, "comparisons": {}, "text_features": {}, "max_forms": 0,
-            "forms_total": 0, "max_fsg_states": 0, "max_fsg_arcs": 0}
+            "impl_decision": {}, "read_string": {}, "comparisons": {}, "text_features": {}, "probability_sum_check": {},
+            "recursion": {}, "max_forms": 0, "forms_total": 0, "max_fsg_states": 0, "max_fsg_arcs": 0}
 
 
 def recursion_class(g):
-    """untrusted classification for the measured distribution only"""
-    names = [nm for nm, _, _ in g["rules"]]
-    return None
+    """untrusted classification of the reference graph of the surface grammar, for the measured distribution only:
+    every cycle is classified by the positions of its references (all last = tail)"""
+    rules = {nm: body for nm, _, body in g["rules"]}
+    edges = {nm: set() for nm in rules}     # (target, is_last, is_first)
+
+    def alts(a, src, last_ctx, first_ctx):
+        for s in a:
+            for i, it in enumerate(s):
+                exp(it[2], src, last_ctx and i == len(s) - 1, first_ctx and i == 0)
+
+    def exp(e, src, last, first):
+        if e[0] == "r" and e[1] in rules:
+            edges[src].add((e[1], last, first))
+        elif e[0] in ("G", "O"):
+            alts(e[1], src, last, first)
+        elif e[0] in ("S", "P"):
+            exp(e[1], src, False, first)
+    for nm, body in rules.items():
+        alts(body, nm, True, True)
+    # reachability
+    reach = {nm: {t for t, _, _ in edges[nm]} for nm in rules}
+    changed = True
+    while changed:
+        changed = False
+        for nm in rules:
+            new = set(reach[nm])
+            for t in list(reach[nm]):
+                new |= reach[t]
+            if new != reach[nm]:
+                reach[nm], changed = new, True
+    cyc = [nm for nm in rules if nm in reach[nm]]
+    if not cyc:
+        return "no recursion"
+    nontail = any((not last) for nm in cyc for t, last, first in edges[nm] if nm in reach[t] or t == nm)
+    left = any(first and not last for nm in cyc for t, last, first in edges[nm] if nm in reach[t] or t == nm)
+    selfonly = all(t == nm for nm in cyc for t, _, _ in edges[nm] if nm in reach[t] or t == nm)
+    if not nontail:
+        return "tail recursion only (self)" if selfonly else "tail recursion only (through several rules)"
+    if left:
+        return "left recursion"
+    return "embedded recursion (one rule)" if selfonly else "embedded recursion (through several rules)"
 
 
 def small_scope(atoms, max_alts_a):
@@ -1024,33 +1288,38 @@ def check(c):
                       "rule names are distinct within a grammar and do not have the form gNNNNN; imports are not generated",
                       "a zero-weight alternative is compared structurally (the arc exists with log-zero probability)",
                       "the compiler may refuse any rule whose reference graph has a cycle through a non-final reference "
-                      "(even when <VOID>/<NULL> make the language regular); `representable` is that syntactic test"]
+                      "(even when <VOID>/<NULL> make the language regular); `representable` is that syntactic test",
+                      "closed FSGs with more than %d arcs are not compared (null closure is quadratic); the raw FSG always is"
+                      % MAX_CLOSED_ARCS]
     if not c.lean_obligations():
         return
-    binp = vlib.build_harness("h_c05")
+    vlib.build_harness("h_c05")
     stats = new_stats()
     gen = Gen(c.rng, stats)
-    failures = 0
     evaluations = 0
     distinct = set()
+    failed = {}          # class -> (res, probs, marked, label)
+    fail_count = {}
+    machinery = []
 
-    def process(cases, label, do_shrink=True):
-        nonlocal failures, evaluations
+    def process(cases, label):
+        nonlocal evaluations
         try:
-            results = run_batch(binp, cases)
+            results = run_batch(None, [(g, t) for g, t, _ in cases])
         except DriverFailure as e:
-            c.oblige(f"model driver runs ({label})", False, str(e))
-            failures += 1
+            machinery.append(str(e))
             return
-        for res in results:
+        for res, (_, _, marked) in zip(results, cases):
             evaluations += 1
             probs = judge_case(res)
             account(stats, res, probs)
-            if probs and failures < 3:
-                failures += 1
-                report(c, binp, res, probs, label, do_shrink)
-            elif probs:
-                failures += 1
+            if probs:
+                cls = problem_class(main_problem(probs))
+                key = finding_key(res["g"], res["text"], cls)
+                grp = cls + (" [" + key + "]" if key else "")
+                fail_count[grp] = fail_count.get(grp, 0) + 1
+                if grp not in failed:
+                    failed[grp] = (res, probs, marked, label)
 
     # corpus first
     corpus = sorted((vlib.ROOT / "corpus" / "C05").glob("*.json"))
@@ -1058,44 +1327,57 @@ def check(c):
     for f in corpus:
         obj = json.loads(f.read_text())
         g = fix_grammar(obj["grammar"])
-        ccases.append((g, obj.get("jsgf_text") or Printer(plain=True).grammar(g)))
+        ccases.append((g, obj.get("jsgf_text") or Printer(plain=True).grammar(g), None))
     if ccases:
-        process(ccases, "corpus", do_shrink=False)
-    ncases = 260 if c.tier == "quick" else 9000
+        process(ccases, "corpus")
+    ncases = 1200 if c.tier == "quick" else 20000
     batch = []
     for i in range(ncases):
-        if failures >= 3:
+        if sum(fail_count.values()) >= 60:
             break
         g = gen.grammar()
         pr = Printer(c.rng, plain=c.rng.chance(0.25), stats=stats)
-        text = pr.grammar(g)
+        marked = pr.marked(g)
+        text = strip_marks(marked)
         distinct.add(text)
         if len(c.samples) < 4 and i % 37 == 0:
             c.samples.append(text[:400])
-        batch.append((g, text))
-        if len(batch) >= 130 or i == ncases - 1:
+        batch.append((g, text, marked))
+        if len(batch) >= 150 or i == ncases - 1:
             process(batch, f"generated batch ending at case {i}")
             batch = []
+    if batch:
+        process(batch, "generated, last batch")
     exhaustive = 0
-    if failures == 0:
-        atoms_q = [("t", "x"), ("r", "a"), ("r", "b"), ("v",)]
+    if not fail_count:
+        atoms_q = [("t", "x"), ("r", "a"), ("r", "b"), ("v",), ("n",)]
         atoms_t = [("t", "x"), ("r", "a"), ("r", "b"), ("n",), ("v",), ("r", "u")]
         stream = small_scope(atoms_q, 1) if c.tier == "quick" else small_scope(atoms_t, 2)
         plain = Printer(plain=True)
         batch = []
         for g in stream:
-            batch.append((g, plain.grammar(g)))
+            batch.append((g, plain.grammar(g), None))
             exhaustive += 1
-            if len(batch) >= 400:
-                process(batch, "small-scope exhaustive", do_shrink=False)
+            if len(batch) >= 500:
+                process(batch, "small-scope exhaustive")
                 batch = []
-                if failures:
+                if fail_count:
                     break
-        if batch and not failures:
-            process(batch, "small-scope exhaustive", do_shrink=False)
+        if batch and not fail_count:
+            process(batch, "small-scope exhaustive")
+    for msg in machinery:
+        c.oblige("model driver runs", False, msg)
+    # one shrunk witness per failure class, implementation-side classes first
+    order = sorted(failed, key=lambda k: (main_problem(failed[k][1])[1] is not True, k))
+    known = set()
+    for grp in order[:6]:
+        res, probs, marked, label = failed[grp]
+        if report(c, res, probs, label, marked):
+            known.add(grp)
+    unexplained = {k: v for k, v in fail_count.items() if k not in known}
     c.oblige("correspondence: real scanner/parser/expansion (ASan/UBSan) agree with the model on every generated grammar "
              "(rule table, accept/refuse, language of raw and closed FSG, weights, rule stack, jsgf_read_string)",
-             failures == 0, f"{failures} failing cases")
+             not unexplained and not machinery, {"failing cases per class": fail_count, "known findings": sorted(known)})
     nontrivial = stats["comparisons"].get("equal", 0) + stats["comparisons"].get("differ", 0)
     c.cov.update({"evaluations": evaluations, "distinct_nontrivial": len(distinct) + exhaustive,
                   "rule": "distinct generated JSGF texts (1-5 rules, nesting depth 0-6, rule graphs with repeated references, "
@@ -1103,14 +1385,18 @@ def check(c):
                           "plus the exhaustive two-rule small scope; every rule of every grammar is built as top (raw and closed)",
                   "verified_language_comparisons": nontrivial, "small_scope_exhaustive_grammars": exhaustive,
                   "corpus_cases": len(ccases), "generator_kind": stats["kind"], "public_rule_choice": stats["public"],
+                  "recursion_shape_of_surface_grammar": stats["recursion"],
                   "rules_per_grammar": {str(k): v for k, v in sorted(stats["rules_hist"].items())},
                   "nesting_depth": {str(k): v for k, v in sorted(stats["depth_hist"].items())},
                   "grammars_with_feature": stats["features"], "text_features": stats["text_features"],
                   "model_decision_per_top": stats["model_decision"], "implementation_decision_per_build": stats["impl_decision"],
                   "jsgf_read_string": stats["read_string"], "comparison_verdicts": stats["comparisons"],
+                  "probability_sum_check_per_grammar": stats["probability_sum_check"],
+                  "raw_fsgs_equal_to_mirror_of_expand_rule": stats.get("mirror_compared", 0),
+                  "regenerated_by_generator": stats.get("regenerated", {}),
                   "max_explored_forms": stats["max_forms"], "explored_forms_total": stats["forms_total"],
                   "max_fsg_states": stats["max_fsg_states"], "max_fsg_arcs": stats["max_fsg_arcs"],
-                  "failing_cases": failures})
+                  "failing_cases_per_class": fail_count})
 
 
 def fix_grammar(g):
@@ -1130,13 +1416,13 @@ def fix_grammar(g):
 
 def replay(c, path):
     c.lean_obligations()
-    binp = vlib.build_harness("h_c05")
+    vlib.build_harness("h_c05")
     obj = json.loads(open(path).read())
     g = fix_grammar(obj["grammar"])
     text = obj.get("jsgf_text") or Printer(plain=True).grammar(g)
-    res = run_batch(binp, [(g, text)])[0]
+    res = run_batch(None, [(g, text)])[0]
     probs = judge_case(res)
     if probs:
-        report(c, binp, res, probs, "replay", do_shrink=False)
+        report(c, res, probs, "replay", do_shrink=False)
     c.oblige("replayed grammar: implementation agrees with the model", not probs, [p[0] for p in probs])
     c.cov.update({"evaluations": 1, "distinct_nontrivial": 1})
